@@ -162,6 +162,8 @@ ATOMS = {
     "itemdyn":   ("R[{v}].f(1)", ["R"], _any),
     "xref":      ("X({v})", ["X"], _any),
     "xabs":      ("XA({v})", ["XA"], _any),
+    "xdeep":     ("XD({v})", ["XD"], _any),
+    "mxref":     ("MX({v}) + MS.f({v})", ["MX"], _any),
     "spref":     ("SP.f({v})", ["SP"], _any),
     "spabs":     ("SPA.f({v})", ["SPA"], _any),
     "xin":       ("XI({v})", ["XI"], _static_only),      # auto ref to a sibling: relative -> not in ItemSpaces
@@ -386,12 +388,22 @@ def expand(case):
             fs["refs"].append(["L2", "same", "L"])
         elif n == "G":
             mrefs.append(["G", "5"])
+        elif n == "Z":
+            add_space("Z", [], None)
+            spaces["Z"]["cells"].append(["f", "lambda x: x + 7", True])
         elif n in ("X", "XA", "SP", "SPA"):
-            if "Z" not in spaces:
-                add_space("Z", [], None)
-                spaces["Z"]["cells"].append(["f", "lambda x: x + 7", True])
+            need("Z")
             target = "Z.f" if n in ("X", "XA") else "Z"
             fs["refs"].append([n, "obj", target, "absolute" if n.endswith("A") else "auto"])
+        elif n == "XD":
+            need("Z")
+            add_space("Z.W", [], None)
+            spaces["Z.W"]["cells"].append(["f", "lambda x: x + 70", True])
+            fs["refs"].append(["XD", "obj", "Z.W.f", "auto"])
+        elif n == "MX":
+            need("Z")
+            mrefs.append(["MX", "obj:Z.f"])
+            mrefs.append(["MS", "obj:Z"])
         elif n in ("XI", "XIA"):
             need("f")
             fs["refs"].append([n, "obj", fhome + ".f", "absolute" if n == "XIA" else "auto"])
@@ -424,7 +436,8 @@ def expand(case):
     # members the formula under test does not need (removable while shrinking)
     needed = set()
     todo = list(ATOMS[A][1]) + list(CTX_NEEDS.get(C, []))
-    deps = {"f": ["r"], "h": ["f"], "k": ["f"], "XI": ["f"], "XIA": ["f"], "L2": ["L"]}
+    deps = {"f": ["r"], "h": ["f"], "k": ["f"], "XI": ["f"], "XIA": ["f"], "L2": ["L"], "XD": ["Z"], "MX": ["Z"], "X": ["Z"],
+            "XA": ["Z"], "SP": ["Z"], "SPA": ["Z"]}
     while todo:
         n = todo.pop()
         if n not in needed:
@@ -442,8 +455,10 @@ def droppable(desc):
     focus = desc["focus"]
     needed = set(desc.get("needed", []))
     needed_spaces = set()
-    if needed & {"X", "XA", "SP", "SPA"}:
+    if "Z" in needed:
         needed_spaces.add("Z")
+    if "XD" in needed:
+        needed_spaces.add("Z.W")
     if "T1" in needed:
         needed_spaces.add(focus + ".T1")
     for n in ("R", "RB", "filter"):
@@ -522,7 +537,8 @@ def build(desc):
     reset_world()
     m = mx.new_model("M")
     for n, lit in desc["mrefs"]:
-        setattr(m, n, _lit(lit))
+        if not lit.startswith("obj:"):
+            setattr(m, n, _lit(lit))
     for sp in desc["spaces"]:
         path = sp["path"]
         parent = _get(m, path.rsplit(".", 1)[0]) if "." in path else m
@@ -541,6 +557,9 @@ def build(desc):
                     s.cells[name].is_cached = False
             else:
                 s.new_cells(name, formula=src, is_cached=bool(cached))
+    for n, lit in desc["mrefs"]:
+        if lit.startswith("obj:"):
+            setattr(m, n, _get(m, lit[4:]))
     for sp in desc["spaces"]:
         s = _get(m, sp["path"])
         for r in sp["refs"]:
@@ -999,7 +1018,8 @@ def script(case):
          "import modelx as mx",
          "m = mx.new_model('M')"]
     for n, lit in desc["mrefs"]:
-        L.append("m.%s = %s" % (n, _lit_src(lit)))
+        if not lit.startswith("obj:"):
+            L.append("m.%s = %s" % (n, _lit_src(lit)))
     for sp in desc["spaces"]:
         path = sp["path"]
         parent = "m." + path.rsplit(".", 1)[0] if "." in path else "m"
@@ -1024,6 +1044,9 @@ def script(case):
                 L.append("define(m.%s, %r, %r, %r)" % (sp["path"], name, src, bool(cached)))
             else:
                 L.append("m.%s.new_cells(%r, formula=%r, is_cached=%r)" % (sp["path"], name, src, bool(cached)))
+    for n, lit in desc["mrefs"]:
+        if lit.startswith("obj:"):
+            L.append("m.%s = m.%s" % (n, lit[4:]))
     for sp in desc["spaces"]:
         for r in sp["refs"]:
             if r[1] == "val":
